@@ -31,7 +31,7 @@ func sm4Kernels() []sm4Kernel {
 }
 
 func runC05(c *Ctx) {
-	c.res.Rule = "per (key, blocks): portable cryptoBlock and cryptoBlockX2, expandKey vs expandKeyAsm, asm kernels X1/X2/X4/X8/X16 with distinct blocks in every lane, enc and dec, in place and disjoint, public NewCipher/Encrypt/Decrypt with the accelerated path on and off, key slice overwritten after construction, key lengths 0..40; class = (path, direction, aliasing, key pattern); non-trivial = every class except the first uniformly random one"
+	c.res.Rule = "per (key, blocks): portable cryptoBlock and cryptoBlockX2, expandKey vs expandKeyAsm, asm kernels X1/X2/X4/X8/X16 with distinct blocks in every lane, enc and dec, in place and disjoint (three-way: CPU, interpreted listing, specification), public NewCipher/Encrypt/Decrypt with the accelerated path on and off, key slice overwritten after construction, key lengths 0..40; class = (path, direction, aliasing, key pattern); non-trivial = every class except the first uniformly random one"
 	nKeys := 150
 	if c.tier == "thorough" {
 		nKeys = 4000
@@ -67,6 +67,9 @@ func runC05(c *Ctx) {
 			implExpA := "ok " + wordsHex(encA[:]) + " " + wordsHex(decA[:])
 			c.Case("sm4.expand", "asm/"+kp.name, false, "sm4.expand "+keyHex)
 			c.Check3("sm4.expand", "asm/"+kp.name, "sm4.expand "+keyHex, "sm4.expand.spec "+keyHex, implExpA)
+			// three-way: real CPU vs the interpreted listing of expandKeyAsm (SMGo/Model/ISAVal.lean) vs the specification
+			c.Case("asm.expandkey", "listing/"+kp.name, false, "asm.expandkey "+keyHex)
+			c.Check3("asm.expandkey", "listing/"+kp.name, "asm.expandkey "+keyHex, "sm4.expand.spec "+keyHex, implExpA)
 		}
 		for _, dir := range []string{"enc", "dec"} {
 			rk := &enc
@@ -115,10 +118,15 @@ func runC05(c *Ctx) {
 						inHex := fmt.Sprintf("%x", blocks[:16*k.n])
 						k.f(&rk[0], &dst[0], &src[0])
 						cl := fmt.Sprintf("%s/%s/%s/%s", k.name, dir, alias, kp.name)
-						// no separate lane model yet: the kernels are compared with the specification, block by block
+						// three-way: real CPU vs the interpreted listing of the kernel (value semantics of
+						// SMGo/Model/ISAVal.lean run on the regenerated listing) vs the specification, block by block
 						sreq := "sm4.spec " + keyHex + " " + inHex + " " + dir
-						c.Case("sm4.kernel", cl, false, sreq)
-						c.Check3("sm4.kernel", cl, sreq, sreq, fmt.Sprintf("ok %x", dst))
+						areq := fmt.Sprintf("asm.kernel %d %s %s", k.n, wordsHex(rk[:]), inHex)
+						if alias == "inplace" {
+							areq += " inplace"
+						}
+						c.Case("sm4.kernel", cl, false, areq)
+						c.Check3("sm4.kernel", cl, areq, sreq, fmt.Sprintf("ok %x", dst))
 					}
 				}
 			}
